@@ -211,6 +211,32 @@ def generate(rng, tier):
                 continue
             cases.append(_pair(base, r[0], [r[1]]))
             got += 1
+    # two different edits of the SAME element (e.g. an argument both retyped and given another
+    # default): each must still be reported (comparison chains must not stop at the first hit)
+    same_pairs = [("retype_arg", "default_arg"), ("retype_input_field", "default_input_field"),
+                  ("retype_dir_arg", "default_dir_arg"), ("retype_field", "deprecate_field"),
+                  ("default_arg", "retype_arg"), ("default_input_field", "retype_input_field")]
+    for k1, k2 in same_pairs:
+        got = 0
+        for _ in range(80):
+            if got >= (4 if tier == "quick" else 25):
+                break
+            base = G.gen_valid_spec(rng, rng.choice(["code", "sdl"]))
+            if not _buildable(base):
+                continue
+            r1 = G.apply_edit(rng, base, k1)
+            if r1 is None:
+                continue
+            r2 = None
+            for _t2 in range(40):
+                r = G.apply_edit(rng, r1[0], k2)
+                if r is not None and r[1]["path"] == r1[1]["path"]:
+                    r2 = r
+                    break
+            if r2 is None or not _buildable(r2[0]):
+                continue
+            cases.append(_pair(base, r2[0], [r1[1], r2[1]]))
+            got += 1
     # single retypes at every wrapper depth <= 3, all pairs over one name (output and input position)
     ws = _wrappings("Int", 3)
     pairs = [(o, n) for o in ws for n in ws if o != n]
